@@ -420,3 +420,136 @@ Proof.
       { unfold nvars, lenZ. rewrite map_length, <- (map_length v_key (l_vars sfc)), <- Ek, map_length. reflexivity. }
       rewrite E8. unfold nrecs. cbn [map sumZ]. ring.
 Qed.
+
+(* ---- the repaired writer: its output is the encoding of a well-formed content -------------- *)
+Lemma pack_bytes_length h rows : Forall (fun r => r <> []) rows -> length (pack_bytes h rows) = length rows.
+Proof.
+  intros Hne. pose proof (pack_rows_shape h rows Hne) as S.
+  unfold pack_bytes, raw_codes. rewrite !map_length.
+  rewrite <- (map_length (@length _) (pack_rows h rows)), S, map_length. reflexivity.
+Qed.
+
+Ltac split_andb H := repeat (apply andb_true_iff in H as [H ?]).
+Ltac boolfacts := repeat match goal with
+  | X : len_is _ _ = true |- _ => apply len_is_eq in X
+  | X : (_ <=? _) = true |- _ => apply Z.leb_le in X
+  | X : (_ <? _) = true |- _ => apply Z.ltb_lt in X
+  | X : (_ =? _) = true |- _ => apply Z.eqb_eq in X end.
+
+Lemma wf_wfield_parts nx ny f : wf_wfield nx ny f = true ->
+  length (wf_key f) = 4%nat /\ 0 < wf_h f /\ -999 <= wf_exp f <= 9999
+  /\ length (wf_prec f) = 14%nat /\ length (wf_var1 f) = 14%nat /\ rect (wf_rows f) = true
+  /\ lenZ (wf_rows f) = ny /\ Forall (fun r => lenZ r = nx) (wf_rows f)
+  /\ rmax (wf_rows f) <= 254 * wf_h f.
+Proof.
+  unfold wf_wfield. intros H. split_andb H.
+  assert (Hrange : rmax (wf_rows f) <= 254 * wf_h f).
+  { match goal with X : (_ || _) = true |- _ => apply orb_true_iff in X as [X|X] end.
+    - apply Z.eqb_eq in H0. match goal with X : (0 <? _) = true |- _ => apply Z.ltb_lt in X end. lia.
+    - apply andb_true_iff in H0 as [Hp He]. apply Z.ltb_lt in Hp. apply Z.eqb_eq in He.
+      pose proof (fixed_rule_covers _ Hp). lia. }
+  assert (F : Forall (fun r => lenZ r = nx) (wf_rows f)).
+  { apply Forall_forall. match goal with X : forallb _ _ = true |- _ => rewrite forallb_forall in X; intros r Hin; apply Z.eqb_eq, X, Hin end. }
+  boolfacts. repeat split; try assumption; lia.
+Qed.
+Lemma wf_wperiod_parts nx ny p : wf_wperiod nx ny p = true ->
+  length (wp_time p) = 10%nat /\ lenZ (wp_levels p) <= 99
+  /\ 108 + table_len (write_levels p) <= 9999 /\ 108 + table_len (write_levels p) <= nx * ny
+  /\ forall l, In l (wp_levels p) -> length (fst l) = 6%nat /\ lenZ (snd l) <= 99
+       /\ forall f, In f (snd l) -> wf_wfield nx ny f = true.
+Proof.
+  unfold wf_wperiod. intros H. split_andb H.
+  match goal with X : forallb _ _ = true |- _ => rewrite forallb_forall in X; rename X into FA end.
+  boolfacts. repeat split; try assumption;
+    match goal with Hin : In ?l (wp_levels p) |- _ => pose proof (FA l Hin) as Hl; split_andb Hl; boolfacts end;
+    try assumption.
+  intros f Hf.
+  match goal with X : forallb (wf_wfield nx ny) _ = true |- _ => rewrite forallb_forall in X; apply X, Hf end.
+Qed.
+Lemma wf_winput_parts w : wf_winput w = true ->
+  length (wi_grid w) = 2%nat /\ length (wi_fixed w) = 93%nat /\ length (wi_vsys2 w) = 2%nat
+  /\ 0 <= wi_nx w <= 999 /\ 0 <= wi_ny w <= 999
+  /\ forall p, In p (wi_periods w) -> wf_wperiod (wi_nx w) (wi_ny w) p = true.
+Proof.
+  unfold wf_winput. intros H. split_andb H.
+  match goal with X : forallb _ _ = true |- _ => rewrite forallb_forall in X; rename X into FA end.
+  boolfacts. repeat split; try assumption; lia.
+Qed.
+
+Lemma write_var_wf nx ny f : 0 <= nx -> wf_wfield nx ny f = true -> wf_var (nx * ny) (write_var f) = true.
+Proof.
+  intros Hnx H. destruct (wf_wfield_parts nx ny f H) as (Hk & Hh & He & Hp & H1 & Hr & Hny & F & _).
+  unfold wf_var, write_var. cbn [v_key v_ck v_exp v_prec v_var1 v_data].
+  pose proof (rect_nonempty _ Hr) as Hne.
+  pose proof (pack_bytes_rowlen (wf_h f) _ nx Hne F) as Fb.
+  assert (F' : Forall (fun r => length r = Z.to_nat nx) (pack_bytes (wf_h f) (wf_rows f))).
+  { eapply Forall_impl; [|exact Fb]. intros r Hr'. unfold lenZ in Hr'. cbn beta in Hr'. lia. }
+  assert (Ld : lenZ (concat (pack_bytes (wf_h f) (wf_rows f))) = nx * ny).
+  { unfold lenZ in *. rewrite (length_concat_uniform _ _ F'), (pack_bytes_length _ _ Hne). nia. }
+  assert (Hc : 0 <= ksum (pack_bytes (wf_h f) (wf_rows f)) < 255) by (unfold ksum; apply Z.mod_pos_bound; lia).
+  unfold len_is. rewrite Hk, Hp, H1, Ld, Z.eqb_refl. cbn [Nat.eqb andb].
+  repeat (apply andb_true_iff; split); try reflexivity; lia.
+Qed.
+
+Lemma write_period_wf w p :
+  wf_winput w = true -> In p (wi_periods w) -> wf_period (write_period w p) = true.
+Proof.
+  intros H Hin. destruct (wf_winput_parts w H) as (Hg & Hf & Hv & Hx & Hy & FA).
+  destruct (wf_wperiod_parts _ _ p (FA p Hin)) as (Ht & Hl & Hh & Hfit & FL).
+  pose proof (table_len_nonneg (write_levels p)) as Htl.
+  assert (Ell : lenZ (write_levels p) = lenZ (wp_levels p)) by (unfold write_levels, lenZ; now rewrite map_length).
+  assert (Epad : lenZ (repeat 32 (Z.to_nat (wi_nx w * wi_ny w - 108 - table_len (write_levels p))))
+                 = wi_nx w * wi_ny w - (108 + table_len (write_levels p))).
+  { unfold lenZ. rewrite repeat_length. lia. }
+  unfold wf_period, write_period, ncell, lenh, len_is.
+  cbn [p_time p_grid p_fixed p_vsys2 p_nx p_ny p_levels p_pad].
+  rewrite Ht, Hg, Hf, Hv, Ell, Epad, Z.eqb_refl. cbn [Nat.eqb andb].
+  repeat (apply andb_true_iff; split); try (apply Z.leb_le; lia); try reflexivity.
+  unfold write_levels. rewrite forallb_forall. intros l Hl'. apply in_map_iff in Hl' as (x & <- & Hx').
+  destruct (FL x Hx') as (Hxt & Hxn & Hxf).
+  unfold wf_lvl, nvars, len_is. cbn [l_text l_vars]. rewrite Hxt. cbn [Nat.eqb andb].
+  apply andb_true_iff; split.
+  - apply Z.leb_le. unfold lenZ in *. rewrite map_length. lia.
+  - rewrite forallb_forall. intros v Hv'. apply in_map_iff in Hv' as (f & <- & Hf').
+    apply (write_var_wf _ _ f); [lia|apply Hxf, Hf'].
+Qed.
+
+Lemma write_content_wf w : wf_winput w = true -> forallb wf_period (write_content w) = true.
+Proof.
+  intros H. unfold write_content. rewrite forallb_forall. intros q Hq.
+  apply in_map_iff in Hq as (p & <- & Hp). apply write_period_wf; assumption.
+Qed.
+
+(* write -> read: the file the repaired writer produces decodes to its content, the reader
+   model returns the ideal view of it, and every field unpacks within one quantum (first element
+   exact) when it is inside the proved range *)
+Theorem write_read w p0 rest :
+  wf_winput w = true -> write_content w = p0 :: rest ->
+  forallb (same_layout p0) rest = true -> forallb (same_keys p0) rest = true ->
+  lib_grid_ok p0 = true -> lvl_texts_ok p0 = true -> keys_disjoint p0 = true -> p_levels p0 <> [] ->
+  dec (impl_write_fixed w) = Some (write_content w)
+  /\ impl_read gen_sizes (impl_write_fixed w) = spec_view (write_content w)
+  /\ forall p l f, In p (wi_periods w) -> In l (wp_levels p) -> In f (snd l) ->
+       let got := unpack_rows (wf_h f) (hdZ (first_row (wf_rows f))) (rows_of (wi_nx w) (v_data (write_var f))) in
+       within (wf_h f) (wf_rows f) got = true /\ hdZ (first_row got) = hdZ (first_row (wf_rows f))
+       /\ bytes_ok (raw_codes (wf_h f) (wf_rows f)) = true.
+Proof.
+  intros Hw Ec Hsl Hsk Hg Ht Hd Hne. pose proof (write_content_wf w Hw) as Wc.
+  unfold impl_write_fixed. split; [apply dec_enc; exact Wc|]. split.
+  - rewrite gen_sizes_std, Ec. rewrite Ec in Wc. apply impl_read_spec; assumption.
+  - intros p l f Hp Hl Hf. cbn zeta.
+    destruct (wf_winput_parts w Hw) as (_ & _ & _ & _ & _ & FA).
+    destruct (wf_wperiod_parts _ _ p (FA p Hp)) as (_ & _ & _ & _ & FL).
+    destruct (FL l Hl) as (_ & _ & FF).
+    destruct (wf_wfield_parts _ _ f (FF f Hf)) as (_ & Hh & _ & _ & _ & H14 & _ & F & Hm).
+    pose proof (rect_nonempty _ H14) as Hnem.
+    assert (Hnx : 0 < wi_nx w).
+    { destruct (wf_rows f) as [|r rs]; [discriminate|]. inversion F as [|? ? Hr0 _]; subst.
+      inversion Hnem as [|? ? Hr1 _]; subst. destruct r; [congruence|]. unfold lenZ in Hr0. cbn [length] in Hr0. lia. }
+    unfold write_var. cbn [v_data].
+    rewrite (rows_of_concat (wi_nx w) _ Hnx (pack_bytes_rowlen (wf_h f) _ (wi_nx w) Hnem F)).
+    fold (roundtrip (wf_h f) (wf_rows f)).
+    destruct (roundtrip_half (wf_h f) (wf_rows f) ltac:(lia) H14 Hm) as (Wh & Bk & Ert).
+    destruct (first_exact (wf_h f) (wf_rows f) ltac:(lia) H14) as [E1 _].
+    repeat split; [exact Wh|rewrite Ert; exact E1|exact Bk].
+Qed.
